@@ -1081,6 +1081,18 @@ _ORACLE_SOUND_HYP = (
     'transcript (model_run = DpRun.run_in + auto_take + observe from DpRun.init_sys, up to a model panic) passes DpOracle.contract_ok and the '
     "driver's guards driver_ok (no ill-formed input; add(k) only for a peripheral not yet in the master and only between requests, as the "
     'harness does)')
+_ORACLE_SOUND_RA = (
+    'RESET_ADDRESS (added after phase 1: input InResetAddr, the driver now runs the wrapper DpOracle.{m}_monitor_ra that follows the station '
+    'address in force): {P}_oracle_sound_ra proves the wrapper accepts every model transcript WITH reset_address calls - any number, to the '
+    'same or to another address, also for a peripheral added during the history - under the same hypotheses plus DpOracle.ra_sane (every '
+    "intermediate address assignment duplicate-free: run_dp.ml's test before it runs the monitors) and reset_guard: the new address is a "
+    'station address 0..125 and no reply of that peripheral is outstanding at the call, i.e. outside the known class F22 '
+    '({P}_oracle_reset_guard: DpOracle.known_reset_while_pending = false and the address range imply reset_guard). The invariants are '
+    'stated for the configuration in force, handles are compared by slot index (the address in a handle is stale after the call). '
+    '{P}_oracle_sound (wrapper) and {P}_oracle_sound_plain (phase-1 monitor) are the corollaries for histories without reset_address; '
+    '{P}_oracle_ra_agrees: on transcripts without a reset_address step the wrapper IS the phase-1 monitor. Non-vacuity: '
+    '{P}_oracle_sound_ra_hypotheses (computed 21-step history, four reset_address calls: same address, changed address after a time-out, '
+    'a peripheral just added, back to the first address).')
 for _pid, _what in (("C03", "bring-up order / request contents"), ("C04", "process image"), ("C08", "frame count bit / retry"),
                     ("C14", "cycle / event accounting")):
     _m = _pid.lower()
@@ -1091,7 +1103,8 @@ for _pid, _what in (("C03", "bring-up order / request contents"), ("C04", "proce
         f'Proof: a simulation between the oracle state and the ghost state of the proved monitors (DpHistory.Inv per slot, the slots visited by '
         f'one slot-loop call, the turn bookkeeping), step by step over the transcript. So a failure code of this monitor on a transcript of the '
         f'real crate that agrees with the model (0 divergences) is not a false alarm of the monitor. Non-vacuity: {_pid}_oracle_sound_hypotheses '
-        f'(computed 22-step history with add() during the run, Online, Offline, two completed cycles). No oracle bug was found.')
+        f'(computed 22-step history with add() during the run, Online, Offline, two completed cycles). No oracle bug was found. '
+        + _ORACLE_SOUND_RA.format(m=_m, P=_pid))
     PROPS[_pid]["technique"] += (' + machine-checked soundness of the executable monitor on the model (simulation oracle state <-> ghost '
                                  'monitor state, induction over the transcript)')
 for _pid in ("C03", "C08"):
@@ -1099,9 +1112,21 @@ for _pid in ("C03", "C08"):
     _cut = _old.index("Not proved in Coq: that the executable oracle")
     PROPS[_pid]["partial_gap"] = _old[:_cut] + (
         f'The executable oracle DpOracle.{_pid.lower()}_monitor is now PROVED to accept every model transcript ({_pid}_oracle_sound, including '
-        'add() between requests during the history); what remains outside: add() while a reply is outstanding (not generated; it re-routes the '
-        'reply), max_retry_limit = 0 (rejected by ParametersBuilder) and transcripts taken without take_last_events() after every callback (the '
-        'monitors are not run on those).')
+        'add() between requests during the history; with reset_address calls outside F22: ' + _pid + '_oracle_sound_ra); what remains outside: '
+        'add() while a reply is outstanding (not generated; it re-routes the '
+        'reply), max_retry_limit = 0 (rejected by ParametersBuilder), reset_address while the reply of that peripheral is outstanding (known '
+        'finding F22: the monitors are not judged on that class) or to an address above 125 (not generated), and transcripts taken without '
+        'take_last_events() after every callback (the monitors are not run on those).')
+    _ra_old = ('histories containing it are covered by the correspondence check (model p_reset_address / dp_reset_address, harness op RA) and the '
+               'executable monitors DpOracle.c03_monitor_ra / c04_monitor_ra / c08_monitor_ra / c14_monitor_ra only (phase back to NeedDiag, next '
+               'request FCV=0/FCB=1, life-cycle Off without event)')
+    assert _ra_old in PROPS[_pid]["partial_gap"]
+    PROPS[_pid]["partial_gap"] = PROPS[_pid]["partial_gap"].replace(
+        _ra_old,
+        'histories containing it are covered by the correspondence check (model p_reset_address / dp_reset_address, harness op RA) and by the '
+        'executable monitors DpOracle.c03_monitor_ra / c04_monitor_ra / c08_monitor_ra / c14_monitor_ra (phase back to NeedDiag, next request '
+        'FCV=0/FCB=1, life-cycle Off without event), and these monitors are PROVED to accept every model transcript with reset_address calls '
+        'outside F22 (C03/C04/C08/C14_oracle_sound_ra: new address 0..125, no reply of that peripheral outstanding at the call)')
 PROPS["C04"]["partial_gap"] = PROPS["C04"]["partial_gap"].replace(
     'add() during a history is not covered (fixed peripheral set)',
     'add() during a history is not covered by the phase-2 history theorems (fixed peripheral set) but IS covered by C04_oracle_sound (add() '
@@ -1110,6 +1135,12 @@ PROPS["C14"]["partial_gap"] = PROPS["C14"]["partial_gap"].replace(
     'add() during a history is not covered (the peripheral set is fixed; the executable monitor marks such cycles and does not judge them either).',
     'add() during a history is not covered by the history theorems (the peripheral set is fixed); C14_oracle_sound covers it (add() between '
     'requests: the executable monitor marks such cycles dirty and does not judge their turn order, which the proof follows).')
+for _pid in ("C04", "C14"):
+    PROPS[_pid]["partial_gap"] += (
+        ' Peripheral::reset_address (added after phase 1) is not an operation of the history theorems; the executable monitor the driver runs '
+        f'(DpOracle.{_pid.lower()}_monitor_ra) is proved to accept every model transcript with reset_address calls outside F22 '
+        f'({_pid}_oracle_sound_ra: new address 0..125, no reply of that peripheral outstanding at the call); reset_address while that reply is '
+        'outstanding is known finding F22 (the monitors are not judged on that class), a new address above 125 is not generated and not covered.')
 PROPS["C07"]["level_text"] += (
     ' BRIDGE TO THE DP MASTER (phase 3, proofs in coq/Proofs/C07Bridge.v): master_visit = one token visit of the fault-free bus with the DpMaster '
     'model and n >= 1 reference slaves (dp_transmit; a Global_Control broadcast is seen by every device; a request by the device with the '
